@@ -1543,7 +1543,7 @@ def eval_touch_command(ctx, targets=()):
         "os.path.dirname": lambda p: str(p).rsplit("/", 1)[0],
         "builtins.open": lambda p, mode="r", *a, **k: (events.append(("open", str(p), mode)), Obj("file", path=str(p), mode=mode))[1],
         "gwf.core.get_spec_hashes": lambda *a, **k: (events.append(("open-store",)), store)[1],
-        "attr:update": lambda recv, t: events.append(("update", t.name)),
+        "attr:update": lambda recv, *a, **k: recv.update(*a, **k) if isinstance(recv, (dict, set)) else events.append(("update", a[0].name)),
         "with_exit": lambda v: events.append(("close-store",)) if v is store else None,
     })
     interp = PureInterp(ctx, hooks=hooks)
@@ -1596,3 +1596,178 @@ def touch_command_witness(ctx):
         if "close-store" not in kinds or any(k == "update" for k in kinds[kinds.index("close-store"):]):
             diffs.append(f"`{label}`: spec hashes are recorded outside the store's with-block (never persisted)")
     return n, diffs, None
+
+
+# --------------------------------------------------------------------------- `gwf run` as a whole on a witness project
+RUN_PROJECT = {"A": [], "B": ["A"], "C": ["B"], "X": ["A"], "Gone": None}   # Gone: has logs but is no longer a target
+
+
+def eval_run_command(ctx, targets=(), dry_run=False, states=None, stale=(), config=None, fail_at=None, store_close_fails=False):
+    """plugins.run:run with the backend, both stores, the file system and the log directory hooked.
+
+    Returns {"events": [...], "raised": kind|None}; events: ("submit", name, [prereq names]), ("hash", name), ("rm-log", file), ("open-backend"),
+    ("close-backend"), ("open-store"), ("close-store")."""
+    fn = ctx.index.func("gwf.plugins.run:run")
+    names = [n for n, d in RUN_PROJECT.items() if d is not None]
+    T = {n: Obj("target", name=n, options={}, spec="spec of " + n) for n in names}
+    deps = {T[n]: {T[d] for d in RUN_PROJECT[n]} for n in names}
+    dependents = {T[n]: {T[m] for m in names if n in RUN_PROJECT[m]} for n in names}
+    graph = GraphTok(T[n] for n in names)
+    states = dict(states or {})
+    events = []
+    n_sub = [0]
+    backend = Obj("backend", target_defaults={"cores": 1, "memory": "1g", "queue": None})
+    store = Obj("spec_hashes")
+
+    def h_submit(recv, target, dependencies=None, **k):
+        n_sub[0] += 1
+        if fail_at is not None and n_sub[0] == fail_at:
+            events.append(("submit-rejected", target.name))
+            raise Raised("BackendError", "sbatch failed")
+        events.append(("submit", target.name, sorted(d.name for d in (dependencies or []))))
+        states[target.name] = "SUBMITTED"
+
+    def h_close(v):
+        if v is backend:
+            events.append(("close-backend",))
+        elif v is store:
+            events.append(("close-store",))
+            if store_close_fails:
+                raise Raised("OSError", "disk full while writing spec-hashes.json")
+
+    hooks = {
+        "gwf.workflow.Workflow.from_context": lambda c: Obj("workflow", targets=dict(T)), "gwf.Workflow.from_context": lambda c: Obj("workflow", targets=dict(T)),
+        "gwf.core.Graph.from_targets": lambda *a, **k: graph, "gwf.core.CachedFilesystem": lambda *a, **k: Obj("fs"),
+        "getattr:dependencies": lambda o: deps, "getattr:dependents": lambda o: dependents, "getattr:targets": lambda o: dict(T),
+        "attr:endpoints": lambda recv: {T[n] for n in names if not dependents[T[n]]},
+        "gwf.scheduling.should_run": lambda target, fs, sh: target.name in stale,
+        "gwf.backends.base.create_backend": lambda *a, **k: (events.append(("open-backend",)), backend)[1],
+        "gwf.backends.create_backend": lambda *a, **k: (events.append(("open-backend",)), backend)[1],
+        "gwf.core.get_spec_hashes": lambda *a, **k: (events.append(("open-store",)), store)[1],
+        "attr:status": lambda recv, target: EnumVal("gwf.backends.base.BackendStatus", states.get(target.name, "UNKNOWN")),
+        "attr:submit": h_submit,
+        "attr:update": lambda recv, *a, **k: recv.update(*a, **k) if isinstance(recv, (dict, set)) else events.append(("hash", a[0].name)),
+        "attr:has_changed": lambda recv, t: None,
+        "with_exit": lambda v: h_close(v),
+        "attr:close": lambda recv, *a, **k: h_close(recv),
+        "os.listdir": lambda d: ["A.stdout", "A.stderr", "Gone.stdout", "Gone.stderr", "X.stdout"],
+        "os.remove": lambda p_: events.append(("rm-log", str(p_).rsplit("/", 1)[-1])), "os.unlink": lambda p_: events.append(("rm-log", str(p_).rsplit("/", 1)[-1])),
+    }
+    cfg = dict({"clean_logs": True}, **(config or {}))
+    interp = PureInterp(ctx, hooks=hooks)
+    interp.max_depth = 40
+    out = {"events": events, "raised": None}
+    try:
+        interp.call(fn, (Obj("ctx", working_dir="/p", config=cfg, backend="B"), tuple(targets), dry_run))
+    except Raised as exc:
+        out["raised"] = exc.kind
+        out["detail"] = exc.detail
+    except Unsupported as exc:
+        return None, f"Unsupported: {exc}"
+    return out, None
+
+
+def run_command_witness(ctx):
+    deps = {n: d for n, d in RUN_PROJECT.items() if d is not None}
+    scenarios = [
+        ("fresh project, everything stale", (), {}, set(deps)),
+        ("only B stale", (), {}, {"B"}),
+        ("A failed earlier, B pending on it", (), {"A": "FAILED", "B": "SUBMITTED"}, set()),
+        ("A running, nothing stale", (), {"A": "RUNNING"}, set()),
+        ("requested: X only, everything stale", ("X",), {}, set(deps)),
+        ("requested pattern matching nothing", ("nomatch",), {}, set(deps)),
+        ("nothing to do", (), {}, set()),
+    ]
+    diffs, n = [], 0
+    for label, targets, states, stale in scenarios:
+        if targets == ("nomatch",):
+            endpoints = []
+        elif targets:
+            endpoints = list(targets)
+        else:
+            endpoints = ["C", "X"]
+        _st, want_sub = schedule_oracle(deps, states, stale, endpoints)
+        for dry in (False, True):
+            out, err = eval_run_command(ctx, targets, dry, states, stale)
+            if err:
+                return n, diffs, err
+            n += 1
+            ev = out["events"]
+            kinds = [e[0] for e in ev]
+            subs = {e[1]: e[2] for e in ev if e[0] == "submit"}
+            hashes = [e[1] for e in ev if e[0] == "hash"]
+            rm = sorted(e[1] for e in ev if e[0] == "rm-log")
+            what = f"`gwf run{' --dry-run' if dry else ''} {' '.join(targets)}` [{label}]"
+            if out["raised"]:
+                diffs.append(f"{what} ends with {out['raised']}")
+                continue
+            if dry:
+                if subs or hashes or rm:
+                    diffs.append(f"{what}: a dry run submits {sorted(subs)}, records hashes of {hashes}, removes logs {rm}; it must change nothing")
+                continue
+            if subs != want_sub:
+                diffs.append(f"{what}: submits {subs} (target: prerequisites); the property prescribes {want_sub}")
+            if sorted(hashes) != sorted(want_sub):
+                diffs.append(f"{what}: spec hashes recorded for {sorted(hashes)}, expected exactly the accepted submissions {sorted(want_sub)}")
+            if rm != ["Gone.stderr", "Gone.stdout"]:
+                diffs.append(f"{what}: log cleaning removes {rm}; expected only the logs of the target that left the workflow (Gone.stdout, Gone.stderr)")
+            if "close-backend" not in kinds or "close-store" not in kinds:
+                diffs.append(f"{what}: {'the tracked-jobs' if 'close-backend' not in kinds else 'the spec-hash'} store is not closed (what was accepted is not saved)")
+            elif any(k in ("submit", "hash") for k in kinds[min(kinds.index("close-backend"), kinds.index("close-store")):]):
+                diffs.append(f"{what}: submissions or hash records happen after a store was closed")
+    # log cleaning switched off
+    out, err = eval_run_command(ctx, (), False, {}, set(deps), config={"clean_logs": False})
+    if err:
+        return n, diffs, err
+    n += 1
+    if any(e[0] == "rm-log" for e in out["events"]):
+        diffs.append("with clean_logs switched off `gwf run` still removes logs")
+    # writing the spec-hash file fails (disk full): the tracked jobs must still be saved
+    out, err = eval_run_command(ctx, (), False, {}, set(deps), store_close_fails=True)
+    if err:
+        return n, diffs, err
+    n += 1
+    if "close-backend" not in [e[0] for e in out["events"]]:
+        diffs.append("when saving the spec hashes fails (OSError), the tracked-jobs file is not written either: every job accepted in this run is forgotten and submitted again next time")
+    # the k-th submission is rejected: what was accepted before is saved, nothing after it is recorded
+    for k in (1, 2, 3):
+        out, err = eval_run_command(ctx, (), False, {}, set(deps), fail_at=k)
+        if err:
+            return n, diffs, err
+        n += 1
+        ev = out["events"]
+        kinds = [e[0] for e in ev]
+        acc = [e[1] for e in ev if e[0] == "submit"]
+        hashes = [e[1] for e in ev if e[0] == "hash"]
+        rej = [e[1] for e in ev if e[0] == "submit-rejected"]
+        what = f"`gwf run` with the scheduler rejecting submission #{k} ({rej[0] if rej else '?'})"
+        if out["raised"] != "BackendError":
+            diffs.append(f"{what}: the command ends with {out['raised']}; the failure must surface as BackendError")
+        if sorted(hashes) != sorted(acc):
+            diffs.append(f"{what}: accepted {acc}, spec hashes recorded for {hashes}: a hash may be recorded only for an accepted submission, and must be for each")
+        if len(acc) != k - 1:
+            diffs.append(f"{what}: {len(acc)} submissions were accepted before/after the failure, expected {k - 1} (the run stops at the failure)")
+        if "close-backend" not in kinds or "close-store" not in kinds:
+            diffs.append(f"{what}: a state store is not closed on the failure path: the jobs accepted before the failure are forgotten")
+    return n, diffs, None
+
+
+def cached_witness(ctx, key, fn):
+    c = ctx.shared.setdefault("_witness_cache", {})
+    if key not in c:
+        c[key] = fn(ctx)
+    return c[key]
+
+
+def report_witness(r, construct, where, result, ok_text, select=None):
+    """Standard reporting of a (n, diffs, unsupported) witness result into rule r; `select` filters the differences relevant to the rule."""
+    n, diffs, unsup = result
+    if select is not None:
+        diffs = [d for d in diffs if select(d)]
+    if diffs:
+        for d in diffs[:3]:
+            r.violation(construct, d, where)
+    elif unsup is not None:
+        r.info(construct, f"not evaluated ({unsup}); the structural rules decide")
+    else:
+        r.ok(construct, f"{n} evaluated invocations: {ok_text}", where)
